@@ -304,3 +304,210 @@ class Traverse(Contract):
     def on_raise(self, it, ctx, exc, st):
         n = exc.cls.name if isinstance(exc, Obj) else repr(exc)
         yield ('no-raise', z3.BoolVal(False), {'raised': n, 'witness': 'raises-' + n})
+
+
+# =====================================================================================================================
+# DFS hook discipline with a POSITIONAL stack: every gate gets at most one enter hook and one exit hook, enter before
+# exit, exit hooks fire in post-order (all successors have exited before), and when the generator stops every entered
+# gate has exited.  Ghost: epos(l) = position of the entered copy of an ENTERED gate.
+#   P3 ENTERED gates sit on the stack at epos        P4 everything above an ENTERED gate is strictly further along the
+#   direction of the traversal (rank argument: no ENTERED gate can be a successor of the top ENTERED gate on a DAG)
+#   P5 an UNVISITED successor of an ENTERED gate has a copy above it     P6 successors of VISITED gates are VISITED
+#   P7 hook bookkeeping: entered <=> left UNVISITED, exited <=> VISITED
+# =====================================================================================================================
+class PosStack(CM.AbsStack):
+    def m_getattr(self, it, name):
+        if name == 'pop':
+            def pop(k=-1):
+                if not (isinstance(k, int) and k == -1):
+                    raise Unsupported('positional stack: pop at an index other than -1')
+                if not it.ctx.choose(_simp(self.n > 0)):
+                    it.raise_('IndexError', 'pop from empty list')
+                top = self.elem(self.n - 1)
+                self.n = self.n - 1
+                return Sym(top)
+            return Native('stack.pop', pop)
+        return CM.AbsStack.m_getattr(self, it, name)
+
+
+def stack_view(it, q):
+    if isinstance(q, CM.AbsStack):
+        return q.n, q.elem
+    if hasattr(q, 'n') and hasattr(q, 'elem'):
+        return q.n, q.elem
+    raise Unsupported('stack of type ' + type(q).__name__)
+
+
+class OrderOuter:
+    def __init__(self, c):
+        self.c = c
+        self.old = None
+
+    def havoc(self, it, env):
+        ctx = it.ctx
+        _K[0] += 1
+        k = _K[0]
+        st = z3.Function(f'sto!{k}', LabelSort, I)
+        el = z3.Function(f'stk!{k}', I, LabelSort)
+        ep = z3.Function(f'epos!{k}', LabelSort, I)
+        en = z3.Function(f'entered!{k}', LabelSort, B)
+        ex = z3.Function(f'exited!{k}', LabelSort, B)
+        n = ctx.fresh(I, 'stklen')
+        env['queue'] = PosStack(n, lambda i: el(i))
+        env['gate_states'] = StateMap(lambda l: st(l), self.c.members)
+        ctx.ghostE, ctx.ghostEn, ctx.ghostX = (lambda l: ep(l)), (lambda l: en(l)), (lambda l: ex(l))
+        self.old = ((lambda l: st(l)), n, (lambda l: ep(l)))
+
+    def epos_now(self, it, env):
+        """ghost update: a gate that became ENTERED in this iteration got the then-top position"""
+        ctx = it.ctx
+        if self.old is None:
+            return ctx.ghostE
+        st0, n0, ep0 = self.old
+        st = st_view(it, env['gate_states'])
+        return lambda l: z3.If(z3.And(st(l) == E, st0(l) != E), n0 - 1, ep0(l))
+
+    def formulas(self, it, env, l, i, q):
+        c = self.c
+        S0, D = c.S0, c.D
+        n, elem = stack_view(it, env['queue'])
+        st = st_view(it, env['gate_states'])
+        ep, En, X = self.epos_now(it, env), it.ctx.ghostEn, it.ctx.ghostX
+        succ = D.succ(l, i)
+        q2 = z3.Int('q!p5')
+        return [('P0/well-formed', z3.And(st(l) >= 0, st(l) <= 2, n >= 0)),
+                ('P1/stack-entries-are-gates', z3.Implies(z3.And(q >= 0, q < n), S0.dom(elem(q)))),
+                ('P2/left-unvisited-are-gates', z3.Implies(st(l) != U, S0.dom(l))),
+                ('P3/entered-gates-sit-at-epos', z3.Implies(st(l) == E, z3.And(ep(l) >= 0, ep(l) < n, elem(ep(l)) == l))),
+                ('P4/entries-above-an-entered-gate-are-further-along', z3.Implies(z3.And(st(l) == E, q > ep(l), q < n), c.further(elem(q), l))),
+                ('P5/unvisited-successors-of-entered-gates-are-above', z3.Implies(z3.And(st(l) == E, i >= 0, i < D.nsucc(l), st(succ) == U),
+                                                                              z3.Exists([q2], z3.And(q2 > ep(l), q2 < n, elem(q2) == succ)))),
+                ('P6/successors-of-visited-gates-are-visited', z3.Implies(z3.And(st(l) == V, i >= 0, i < D.nsucc(l)), st(succ) == V)),
+                ('P7/hook-bookkeeping', z3.And(En(l) == (st(l) != U), X(l) == (st(l) == V)))]
+
+    def inv(self, it, env, k):
+        c = it.ctx
+        return self.formulas(it, env, c.fresh(LabelSort, 'lo'), c.fresh(I, 'io'), c.fresh(I, 'qo'))
+
+    def inv_assume(self, it, env, k):
+        l, i, q = z3.Const('l!do', LabelSort), z3.Int('i!do'), z3.Int('q!do')
+        return [(nm, z3.ForAll([l, i, q], f)) for nm, f in self.formulas(it, env, l, i, q)]
+
+    def on_yield(self, it, env, value):
+        pass
+
+
+class OrderInner:
+    def __init__(self, c):
+        self.c = c
+        self.base = None
+
+    def applies(self, it, env, iterable):
+        return isinstance(iterable, (CM.UsersRef, CM.OpsSeq)) and iterable.concrete_len(it) is None
+
+    def _setup(self, it, env):
+        if self.base is None:
+            self.base = stack_view(it, env['queue'])
+            self.cur = it.label_term(it.getattr(env['current_elem'], 'label'))
+
+    def havoc(self, it, env):
+        self._setup(it, env)
+        _K[0] += 1
+        el = z3.Function(f'stki!{_K[0]}', I, LabelSort)
+        env['queue'] = PosStack(it.ctx.fresh(I, 'stkleni'), lambda i: el(i))
+
+    def formulas(self, it, env, k, q, j):
+        self._setup(it, env)
+        c = self.c
+        D, cur = c.D, self.cur
+        n0, e0 = self.base
+        n, elem = stack_view(it, env['queue'])
+        st = st_view(it, env['gate_states'])
+        sj = D.succ(cur, j)
+        q2 = z3.Int('q!n2')
+        return [('stack-only-grows-old-part-kept', z3.And(n >= n0, z3.Implies(z3.And(q >= 0, q < n0), elem(q) == e0(q)))),
+                ('pushed-entries-are-unvisited-successors', z3.Implies(z3.And(q >= n0, q < n), z3.And(D.succcount(cur, elem(q)) > 0, st(elem(q)) == U))),
+                ('scanned-successors-seen', z3.Implies(z3.And(j >= 0, j < k, st(sj) == U), z3.Exists([q2], z3.And(q2 >= n0, q2 < n, elem(q2) == sj))))]
+
+    def inv(self, it, env, k):
+        return self.formulas(it, env, k, it.ctx.fresh(I, 'qi'), it.ctx.fresh(I, 'ji'))
+
+    def inv_assume(self, it, env, k):
+        q, j = z3.Int('q!di'), z3.Int('j!di')
+        return [(nm, z3.ForAll([q, j], f)) for nm, f in self.formulas(it, env, k, q, j)]
+
+
+class DfsOrder(Contract):
+    """Circuit.dfs with recording enter / exit hooks: hook discipline of the depth-first traversal"""
+    relpath, qualname = CIRC, 'Circuit.dfs'
+
+    def __init__(self, inverse):
+        self.inverse = inverse
+        self.name = f'dfs/inverse={inverse}/hook-discipline'
+
+    def setup(self, it, ctx):
+        c, h = CM.make_circuit(it, ctx, tag='c')
+        S0 = h.S
+        self.S0, self.h = S0, h
+        self.D = Dir(S0, self.inverse)
+        D = self.D
+        CM.install_get_gate_users_contract(it)
+        cm = it.load_module('cirbo.core.circuit.circuit')
+        ts = cm.env['TraverseState'].members
+        self.members = {U: ts['UNVISITED'], E: ts['ENTERED'], V: ts['VISITED']}
+        # "further along the direction": successors have smaller rank (operands) resp. larger rank (users)
+        self.further = (lambda a, b: S0.rank(a) > S0.rank(b)) if self.inverse else (lambda a, b: S0.rank(a) < S0.rank(b))
+        start = CM.AbsLabelSeq(ctx, tag='start')
+        l, x = z3.Consts('l!dp x!dp', LabelSort)
+        i = z3.Int('i!dp')
+        ctx.assume(z3.ForAll([l], z3.Implies(start.count(l) > 0, S0.dom(l))))
+        # view links (lean: count_pos_witness): a counted successor occurs at some position; a counted operand occurs at some position
+        _K[0] += 1
+        w = z3.Function(f'succwit!{_K[0]}', LabelSort, LabelSort, I)
+        ctx.assume(z3.ForAll([l, x], z3.Implies(D.succcount(l, x) > 0, z3.And(w(l, x) >= 0, w(l, x) < D.nsucc(l), D.succ(l, w(l, x)) == x))))
+        ow = z3.Function(f'opwit!{_K[0]}', LabelSort, LabelSort, I)
+        ctx.assume(z3.ForAll([l, x], z3.Implies(S0.opc(l, x) > 0, z3.And(ow(l, x) >= 0, ow(l, x) < S0.nops(l), S0.op(l, ow(l, x)) == x))))
+        # every successor is strictly further along (W5; for users via W3 and the operand witness) — proved as a lemma obligation below
+        ctx.ghostE = lambda q: z3.IntVal(0)
+        ctx.ghostEn = lambda q: z3.BoolVal(False)
+        ctx.ghostX = lambda q: z3.BoolVal(False)
+        outer = OrderOuter(self)
+        it.loop_specs[(KEY, 1)] = outer
+        it.loop_specs[(KEY, 2)] = OrderInner(self)
+        it.loop_specs[(KEY, 4)] = AllGatesNoop()
+        contract = self
+
+        def on_enter(gate_obj, states):
+            cur = it.label_term(it.getattr(gate_obj, 'label'))
+            En = it.ctx.ghostEn
+            it.ctx.check('enter-hook/at-most-once-per-gate', z3.Not(En(cur)), {'witness': 'hook-order'})
+            it.ctx.ghostEn = lambda q: z3.Or(q == cur, En(q))
+
+        def on_exit(gate_obj, states):
+            cur = it.label_term(it.getattr(gate_obj, 'label'))
+            En, X = it.ctx.ghostEn, it.ctx.ghostX
+            j = it.ctx.fresh(I, 'jx')
+            it.ctx.check('exit-hook/after-the-enter-hook', En(cur), {'witness': 'hook-order'})
+            it.ctx.check('exit-hook/at-most-once-per-gate', z3.Not(X(cur)), {'witness': 'hook-order'})
+            it.ctx.check('exit-hook/post-order-all-successors-exited', z3.Implies(z3.And(j >= 0, j < contract.D.nsucc(cur)), X(contract.D.succ(cur, j))), {'witness': 'post-order'})
+            it.ctx.ghostX = lambda q: z3.Or(q == cur, X(q))
+        kw = {'inverse': self.inverse, 'on_enter_hook': Native('ghost.on_enter', on_enter), 'on_exit_hook': Native('ghost.on_exit', on_exit)}
+        return [c, start], kw, {'h': h, 'S0': S0, 'D': D}
+
+    def execute(self, it, fv, args, kwargs):
+        g = it.call_function(fv, args, kwargs, force_inline=True)
+        if not isinstance(g, GenV):
+            raise Unsupported('dfs did not return the generator of _traverse_circuit')
+        for _ in g.it:
+            raise Unsupported('yield outside the main loop')
+        return None
+
+    def post(self, it, ctx, result, st):
+        l = ctx.fresh(LabelSort, 'lp')
+        En, X = ctx.ghostEn, ctx.ghostX
+        yield ('every-entered-gate-has-exited', z3.Implies(En(l), X(l)), {'witness': 'hook-order'})
+        yield ('circuit-unchanged', z3.BoolVal(not [e for e in st['h'].events if e[0] in ('gate-write', 'gate-del', 'users-del', 'users-alias')]))
+
+    def on_raise(self, it, ctx, exc, st):
+        n = exc.cls.name if isinstance(exc, Obj) else repr(exc)
+        yield ('no-raise', z3.BoolVal(False), {'raised': n, 'witness': 'raises-' + n})
